@@ -11,6 +11,9 @@ RESERVED = '<>:"/\\|?*'
 LIMIT = 230
 
 
+FREE = 2
+
+
 class SymPath:
     """posixpath.split / join over SStr; isfile is an arbitrary predicate (fresh boolean per query, first K free)"""
     queries = []
@@ -86,6 +89,20 @@ def job(jc, spec):
     dpre = SStr.of(dirname + '/') if dirname else SStr([])
 
     def go():
+        # every path starts like a fresh process: memoising helpers of the module are emptied ...
+        for f in list(vars(misc).values()):
+            if callable(getattr(f, 'cache_clear', None)):
+                f.cache_clear()
+        # ... and has one explicit history: the same call was made before, when no candidate existed yet (what a caller
+        # does who writes the returned file and asks again).  The judged call is the second one.
+        SymPath.queries = []
+        SymPath.free = 0
+        try:
+            misc.clean_file_name(dpre + name, unique=unique)
+        except Exception:
+            pass
+        finally:
+            SymPath.free = FREE
         SymPath.queries = []
         r = misc.clean_file_name(dpre + name, unique=unique)
         return r, list(SymPath.queries)
@@ -135,7 +152,8 @@ def run(ctx):
                               "is the filler 'a'", collisions='the first 2 isfile() answers are arbitrary, later ones False',
                       directories=['d', ''])
     ctx.stubs = ['SymRe (re.match / re.sub on symbolic strings, patterns parsed by CPython re._parser)',
-                 'posixpath.split/join model over SStr', 'os.path.isfile = arbitrary predicate', "os.name = 'posix'"]
+                 'posixpath.split/join model over SStr', 'os.path.isfile = arbitrary predicate', "os.name = 'posix'",
+                 'history: the same call once before with no existing file; memoising helpers of androguard.misc emptied at path start']
     ctx.assumptions = ["input file name contains no '/' (os.path.split removes it by construction)",
                        'filler characters behave like any character outside the classes the code distinguishes']
     ctx.outside_claim = ['force_nt / Windows branch', 'more than 2 colliding files',
@@ -178,6 +196,13 @@ def replay(w):
     os.path.isfile = fake
     inp = (w['dir'] + '/' if w['dir'] else '') + w['name']
     try:
+        # the history of the symbolic run: the same call before, nothing exists yet
+        os.path.isfile = lambda p: False
+        try:
+            misc.clean_file_name(inp, unique=w['unique'])
+        except Exception:
+            pass
+        os.path.isfile = fake
         try:
             r = misc.clean_file_name(inp, unique=w['unique'])
         except Exception as e:
